@@ -15,10 +15,14 @@ def _gf255_k(names, quick_fields=("gf25519",), all_fields=("gf25519", "gf255e", 
     return out
 
 
+# Z3's newer linear-arithmetic core; the default (solver=2) needs minutes on the 512-bit carry-chain equalities
+ARITH6 = ("--smt-option", "smt.arith.solver=6")
+
 PROPS = {
     "C01": dict(
         title="Field arithmetic is exact for every element representation",
-        verus=[("w64_prim", None, "quick"), ("gf255_m64_lin", None, "quick"), ("gf255_m64_shift", None, "quick")],
+        verus=[("w64_prim", None, "quick"), ("gf255_m64_lin", None, "quick"), ("gf255_m64_shift", None, "quick"),
+               ("gf255_m64_mul", 300, "quick", ARITH6)],
         kani=_gf255_k(["k_add", "k_sub", "k_neg", "k_half"]),
         cases=["gf255_mul", "gf255_square", "gf255_xsquare", "gf255_mul_small"],
     ),
